@@ -388,6 +388,10 @@ class SResponse:
         return ctx().interp.truth(self.status_code < 400)
 
 
+class AnyOtherRequestException(_requests.exceptions.RequestException):
+    """stands for every RequestException subclass that is none of ConnectionError, Timeout, HTTPError"""
+
+
 def _http(interp, method, self_, url, **kw):
     c = ctx()
     w = get_http()
@@ -396,7 +400,16 @@ def _http(interp, method, self_, url, **kw):
     w.log.append((method, str(url), dict(hdrs)))
     o = w.outcome(url, method)
     if interp.truth(o["fails"]):
-        raise RaiseSig(_requests.exceptions.ConnectionError("connection reset"))
+        # the assumed contract only says "some RequestException": the caller has to cope with every
+        # subclass, so besides the two common ones an exception class that is a RequestException and
+        # nothing more specific (as ChunkedEncodingError, TooManyRedirects, ... are to a caller that
+        # lists ConnectionError/Timeout/HTTPError) is raised on its own path
+        k = c.int(c.fresh_name("http_failure_kind"))
+        if interp.truth(k == 0):
+            raise RaiseSig(_requests.exceptions.ConnectionError("connection reset"))
+        if interp.truth(k == 1):
+            raise RaiseSig(_requests.exceptions.Timeout("timed out"))
+        raise RaiseSig(AnyOtherRequestException("body transfer interrupted / too many redirects / ..."))
     body = o["body"]
     if "Range" in hdrs and "range_body" in o:
         body = o["range_body"](hdrs["Range"])
